@@ -26,6 +26,7 @@ def run_case(method, outcome, arrivals, cancels, evict_at, expiration):
 
         async def body(x):
             log["started"] += 1
+            my = log["started"]                   # invocation id: order of starts
             try:
                 await asyncio.sleep(1.0)
             except asyncio.CancelledError:
@@ -33,8 +34,10 @@ def run_case(method, outcome, arrivals, cancels, evict_at, expiration):
                 raise
             log["finished"] += 1
             if outcome == "exc" and x == 1:
-                raise boom
-            return ("value", x, log["started"])
+                if my == 1:
+                    raise boom
+                raise Boom(my)
+            return ("value", x, my)
 
         if method:
             class H:
@@ -108,6 +111,9 @@ def run_case(method, outcome, arrivals, cancels, evict_at, expiration):
             vals.add(r[1])
     if len(vals) > 1:
         return f"callers sharing one in-flight key received different invocations: {vals}"
+    p2 = later_generations(arrivals, cancels, evict_at, expiration, results, boom)
+    if p2:
+        return p2
     others = 0 if evict_at is None else 1
     late = [i for i, at in enumerate(arrivals) if i not in sharers]
     if log["started"] > 1 + others + len(late):
@@ -115,11 +121,42 @@ def run_case(method, outcome, arrivals, cancels, evict_at, expiration):
     return None
 
 
+def later_generations(arrivals, cancels, evict_at, expiration, results, boom):
+    """Reference model of the entry of key 1 (limit 1): every caller arriving while the *current* entry's invocation is in
+    flight - also an invocation started after an expiry or eviction - joins exactly that invocation."""
+    events = sorted([(at, 0, i) for i, at in enumerate(arrivals)] + ([(evict_at, 1, -1)] if evict_at is not None else []))
+    inv, entry = 0, None                          # entry: (invocation id, start, expire or None)
+    for t, kind, i in events:
+        if kind == 1:
+            inv += 1                              # the call with the other key starts its own invocation and evicts key 1
+            entry = None
+            continue
+        if entry is not None and entry[2] is not None and abs(entry[2] - t) < 1e-9:
+            return None                           # arrival exactly at the expiry instant: not pinned (float clock)
+        alive = entry is not None and (entry[2] is None or t < entry[2])
+        if alive:
+            expected = entry[0] if t < entry[1] + 1.0 else None      # completed but still cached: not a C13 matter
+        else:
+            inv += 1
+            entry = (inv, t, None if expiration is None else t + expiration)
+            expected = inv
+        if expected is None or i in cancels:
+            continue
+        r = results.get(i)
+        if r is None:
+            return f"caller {i} never finished"
+        got = r[1][2] if r[0] == "ret" else (1 if r[1] is boom else (r[1].args[0] if r[0] == "exc" else None))
+        if got != expected:
+            return (f"caller {i} arrived at t={t} while invocation #{expected} of its key was in flight under a live entry but "
+                    f"was served by invocation #{got}")
+    return None
+
+
 def search():
     n = 0
     for method in (False, True):
         for outcome in ("value", "exc"):
-            for arrivals in ([0, 0], [0, 0.5], [0, 0.5, 0.9], [0, 0.25, 0.5, 0.75]):
+            for arrivals in ([0, 0], [0, 0.5], [0, 0.5, 0.9], [0, 0.25, 0.5, 0.75], [0, 0.5, 1.2], [0, 0.8, 1.1, 1.6]):
                 idx = range(len(arrivals))
                 for k in range(0, 3):
                     for who in itertools.combinations(idx, k):
